@@ -759,21 +759,25 @@ void updateUnitsNameUsages(const std::string &oldName, const std::string &newNam
     }
 }
 
-StringStringMap transferUnitsRenamingIfRequired(const ModelPtr &sourceModel, const ModelPtr &targetModel, const UnitsPtr &units, const ComponentPtr &component)
+StringStringMap transferUnitsRenamingIfRequired(const ModelPtr &sourceModel, const ModelPtr &targetModel, const UnitsPtr &units, const ComponentPtr &component, NameList &unitsInTransfer)
 {
     StringStringMap changedNames;
 
     std::string newName = units->name();
     UnitsPtr targetUnits = modelsEquivalentUnits(targetModel, units);
     if (targetUnits == nullptr) {
+        unitsInTransfer.push_back(newName);
         for (size_t unitIndex = 0; unitIndex < units->unitCount(); ++unitIndex) {
             std::string reference = units->unitAttributeReference(unitIndex);
-            if (!reference.empty() && !isStandardUnitName(reference) && sourceModel->hasUnits(reference)) {
+            // A reference to units that are being transferred (a circular units definition) is left as it is.
+            if (!reference.empty() && !isStandardUnitName(reference) && sourceModel->hasUnits(reference)
+                && (std::find(unitsInTransfer.begin(), unitsInTransfer.end(), reference) == unitsInTransfer.end())) {
                 auto clonedChildUnits = sourceModel->units(reference)->clone();
-                transferUnitsRenamingIfRequired(sourceModel, targetModel, clonedChildUnits, component);
+                transferUnitsRenamingIfRequired(sourceModel, targetModel, clonedChildUnits, component, unitsInTransfer);
                 units->setUnitAttributeReference(unitIndex, clonedChildUnits->name());
             }
         }
+        unitsInTransfer.pop_back();
 
         size_t count = 0;
         const std::string originalName = newName;
@@ -797,6 +801,12 @@ StringStringMap transferUnitsRenamingIfRequired(const ModelPtr &sourceModel, con
     }
 
     return changedNames;
+}
+
+StringStringMap transferUnitsRenamingIfRequired(const ModelPtr &sourceModel, const ModelPtr &targetModel, const UnitsPtr &units, const ComponentPtr &component)
+{
+    NameList unitsInTransfer;
+    return transferUnitsRenamingIfRequired(sourceModel, targetModel, units, component, unitsInTransfer);
 }
 
 void flattenUnitsImports(const ModelPtr &flatModel, const UnitsPtr &units, size_t index, const ComponentPtr &component);
